@@ -214,101 +214,63 @@ def project_contract(c) -> Dict[str, Any]:
             'decl': NOSEAT if c.declarer is None else c.declarer.value - 1}
 
 
-def run_session(cfg: Dict[str, Any]) -> Dict[str, Any]:
-    """cfg keys: boards [(deal, dealer, vul, id, dda|None)], seed, policy
-    (baton.Policy factory: callable(rnd) -> Policy), styles (per seat dict),
-    vary (bool), fault (dict|None), interrupt ((point) | None), outdir,
-    teams (ns, ew), requesters (list for admission scenarios | None),
-    max_blocks."""
-    Bid, Card, Contract, Hands, Pair, Player, Suit, Vul = _imp()
-    from bridge_env.data_handler.abstract_classes import BoardSetting
-    from bridge_env.network_bridge import client as cmod
-    from bridge_env.network_bridge import server as smod
-    from bridge_env import playing_phase as ppmod
-    rnd = _random.Random(cfg.get('seed', 0))
-    policy = cfg['policy'](_random.Random(rnd.randrange(1 << 30)))
-    inject = {}
-    if cfg.get('interrupt') is not None:
-        inject[('main', cfg['interrupt'])] = KeyboardInterrupt()
-    sched = baton.Sched(policy, max_blocks=cfg.get('max_blocks', 300000), inject=inject,
-                        record_blocks=cfg.get('record_blocks', True))
-    outpath = pathlib.Path(cfg['outdir']) / f'out-{os.getpid()}-{cfg.get("tag", 0)}.json'
-    at_stuck: Dict[str, Any] = {}
+class _Table:
+    """One table manager with its four (or more) requesters inside a shared
+    controlled world."""
 
-    def observe():
-        try:
-            at_stuck['file'] = outpath.read_text()
-        except OSError:
-            at_stuck['file'] = None
-        at_stuck['main_alive'] = any(t.name == 'main' and t.state != 'done' for t in sched.threads)
-    sched.on_stuck = observe
-    if outpath.exists():
-        outpath.unlink()
-    settings = cfg.get('settings_obj')
-    if cfg['boards'] is None:
-        settings = None          # the server deals 100 random boards itself
-    elif settings is None:
-        settings = [BoardSetting(hands=make_hands(dl), dealer=Player(d + 1), vul=Vul(v + 1),
-                                 board_id=bid_, dda=dda)
-                    for (dl, d, v, bid_, dda) in cfg['boards']]
-    result_settings = settings
-    dec = Decisions()
-    result: Dict[str, Any] = {'verdict': None, 'settings_obj': result_settings}
-    replicas: List[Dict[str, Any]] = []
-    client_info: List[Dict[str, Any]] = []
-    teams = cfg.get('teams', ('teamNS', 'teamEW'))
-    py_state = _random.getstate()
+    def __init__(self, cfg: Dict[str, Any], sched, world, port: int, suffix: str):
+        self.cfg, self.sched, self.world, self.port, self.suffix = cfg, sched, world, port, suffix
+        self.rnd = _random.Random(cfg.get('seed', 0))
+        self.rnd.randrange(1 << 30)       # (keeps the decision streams of earlier versions)
+        self.dec = Decisions()
+        self.replicas: List[Dict[str, Any]] = []
+        self.client_info: List[Dict[str, Any]] = []
+        self.outpath = pathlib.Path(cfg['outdir']) / \
+            f'out-{os.getpid()}-{cfg.get("tag", 0)}{suffix}.json'
+        if self.outpath.exists():
+            self.outpath.unlink()
+        self.at_stuck: Dict[str, Any] = {}
+        self.at_main_return: Dict[str, Any] = {}
+        self.settings = None
 
-    with baton.World(sched) as world:
-        net = world.net
-        server_box: Dict[str, Any] = {}
+    def main_name(self) -> str:
+        return 'main' + self.suffix
+
+    def setup(self) -> None:
+        Bid, Card, Contract, Hands, Pair, Player, Suit, Vul = _imp()
+        from bridge_env.data_handler.abstract_classes import BoardSetting
+        from bridge_env.network_bridge import client as cmod
+        from bridge_env.network_bridge import server as smod
+        cfg, sched, world, rnd = self.cfg, self.sched, self.world, self.rnd
+        settings = cfg.get('settings_obj')
+        if cfg['boards'] is None:
+            settings = None          # the server deals 100 random boards itself
+        elif settings is None:
+            settings = [BoardSetting(hands=make_hands(dl), dealer=Player(d + 1), vul=Vul(v + 1),
+                                     board_id=bid_, dda=dda)
+                        for (dl, d, v, bid_, dda) in cfg['boards']]
+        self.settings = settings
+        port, outpath = self.port, self.outpath
 
         def main_fn():
-            with smod.Server(ip_address='127.0.0.1', port=2000, output_file_path=outpath,
-                             board_settings=settings) as server:
-                server_box['server'] = server
-                server.run()
-        sched.spawn('main', main_fn)
-
-        # ---- capture the replicas the clients build (from outside) ----------
-        orig_obs = ppmod.ObservedPlayingPhase
-        orig_bp = cmod.Client.bidding_phase
-        orig_pp = cmod.Client.playing_phase
-
-        def bidding_phase(self_):
-            c = orig_bp(self_)
-            replicas.append({'seat': self_.player.value - 1, 'kind': 'contract',
-                             'board': self_.board_num, 'contract': project_contract(c)})
-            return c
-
-        class CapturingObserved(orig_obs):
-            def __init__(self_, contract, player, hand):
-                super().__init__(contract, player, hand)
-                CapturingObserved.last[player] = self_
-        CapturingObserved.last = {}
-
-        def playing_phase(self_, contract):
             try:
-                return orig_pp(self_, contract)
+                with smod.Server(ip_address='127.0.0.1', port=port, output_file_path=outpath,
+                                 board_settings=settings) as server:
+                    server.run()
             finally:
-                ob = CapturingObserved.last.get(self_.player)
-                if ob is not None:
-                    try:
-                        pr = project_replica(ob)
-                    except Exception as ex:  # noqa
-                        pr = {'error': repr(ex)}
-                    pr.update({'seat': self_.player.value - 1, 'kind': 'play',
-                               'board': self_.board_num})
-                    replicas.append(pr)
-        world._set(cmod.Client, 'bidding_phase', bidding_phase)
-        world._set(cmod.Client, 'playing_phase', playing_phase)
-        world._set(cmod, 'ObservedPlayingPhase', CapturingObserved)
-
+                # Server.run is over: what do its threads look like right now?
+                self.at_main_return['seats_done'] = all(
+                    pt._baton.state == 'done' for pt in world.player_threads
+                    if getattr(pt.connection, 'port', port) == port)
+        sched.spawn(self.main_name(), main_fn)
+        teams = cfg.get('teams', ('teamNS', 'teamEW'))
         requesters = cfg.get('requesters')
         if requesters is None:
-            requesters = [{'kind': 'client', 'seat': s, 'team': teams[s % 2]} for s in range(4)]
+            requesters = [{'kind': 'client', 'seat': s_, 'team': teams[s_ % 2]} for s_ in range(4)]
+        self.requesters = requesters
         gate = {'turn': 0}
         ordered = cfg.get('ordered_arrival', False)
+        dec, net = self.dec, world.net
 
         def mk_client(idx: int, rq: Dict[str, Any]):
             seat = rq['seat']
@@ -320,7 +282,14 @@ def run_session(cfg: Dict[str, Any]) -> Dict[str, Any]:
             mang = Mangler(crnd, cfg.get('vary', False),
                            fault if fault and fault['seat'] == seat else None)
             info = {'idx': idx, 'seat': seat, 'kind': 'client', 'exc': None, 'mangler': mang}
-            client_info.append(info)
+            self.client_info.append(info)
+
+            def hook(data: bytes):
+                if data.lower().endswith(b'ready for deal\r\n') and info.get('deals', 0) >= 1:
+                    mang.new_board()
+                if data.lower().endswith(b'ready for deal\r\n'):
+                    info['deals'] = info.get('deals', 0) + 1
+                return mang(data)
 
             def fn():
                 if ordered:
@@ -328,7 +297,7 @@ def run_session(cfg: Dict[str, Any]) -> Dict[str, Any]:
                 try:
                     with cmod.Client(player=Player(seat + 1), team_name=rq['team'],
                                      bidding_system=bs, playing_system=ps,
-                                     ip_address='127.0.0.1', port=2000) as cl:
+                                     ip_address='127.0.0.1', port=port) as cl:
                         sock = cl.get_socket()
                         orig_connect = sock.connect
 
@@ -340,29 +309,23 @@ def run_session(cfg: Dict[str, Any]) -> Dict[str, Any]:
                         sock.connect = connect
                         info['client'] = cl
                         holder['client'] = cl
+                        cl._verif_table = self
                         cl.run()
                 except baton.Abort:
                     raise
                 except BaseException as ex:  # noqa
                     info['exc'] = f'{type(ex).__name__}: {ex}'[:200]
-
-            def hook(data: bytes):
-                if data.lower().endswith(b'ready for deal\r\n') and info.get('deals', 0) >= 1:
-                    mang.new_board()
-                if data.lower().endswith(b'ready for deal\r\n'):
-                    info['deals'] = info.get('deals', 0) + 1
-                return mang(data)
             return fn
 
         def mk_raw(idx: int, rq: Dict[str, Any]):
             info = {'idx': idx, 'seat': rq['seat'], 'kind': 'raw', 'exc': None, 'got': [],
                     'rq': rq}
-            client_info.append(info)
+            self.client_info.append(info)
 
             def fn():
                 if ordered:
                     sched.yield_point('gate', None, lambda: gate['turn'] == idx)
-                conn = net.connect()
+                conn = net.connect(port)
                 info['conn'] = conn
                 gate['turn'] += 1
                 from bridge_env.network_bridge.socket_interface import MessageInterface
@@ -379,48 +342,131 @@ def run_session(cfg: Dict[str, Any]) -> Dict[str, Any]:
 
         for idx, rq in enumerate(requesters):
             fn = mk_client(idx, rq) if rq['kind'] == 'client' else mk_raw(idx, rq)
-            sched.spawn(f'client{idx}', fn)
-        verdict = sched.run(timeout=cfg.get('timeout', 120.0))
+            sched.spawn(f'client{self.suffix}{idx}', fn)
 
+    def observe_stuck(self) -> None:
+        try:
+            self.at_stuck['file'] = self.outpath.read_text()
+        except OSError:
+            self.at_stuck['file'] = None
+        self.at_stuck['main_alive'] = any(t.name == self.main_name() and t.state != 'done'
+                                          for t in self.sched.threads)
+
+    def collect(self, verdict: str) -> Dict[str, Any]:
+        sched = self.sched
+        th = {t.name: t for t in sched.threads}
+        m = th[self.main_name()]
+        result: Dict[str, Any] = {'verdict': verdict, 'settings_obj': self.settings}
+        result['blocked'] = sched.blocked_at_end
+        result['nblocks'] = sched.nblocks
+        result['blocks'] = sched.blocks
+        result['main_exc'] = None if m.exc is None else f'{type(m.exc).__name__}: {m.exc}'[:200]
+        result['main_done'] = m.state == 'done'
+        mine = [pt for pt in self.world.player_threads
+                if getattr(pt.connection, 'port', self.port) == self.port]
+        result['seat_threads'] = [
+            {'name': pt._baton.name, 'done': pt._baton.state == 'done',
+             'exc': None if pt._baton.exc is None else
+             f'{type(pt._baton.exc).__name__}: {pt._baton.exc}'[:200]} for pt in mine]
+        result['seats_done_at_main_return'] = self.at_main_return.get('seats_done', True)
+        conns = []
+        for info in self.client_info:
+            c = info.get('conn')
+            entry = {'idx': info['idx'], 'seat': info['seat'], 'kind': info['kind'],
+                     'wire': info['mangler'].wire if 'mangler' in info else [],
+                     'got': info.get('got'),
+                     'exc': info['exc'], 'c2s': [], 's2c': [], 'server_closed': False,
+                     'rq': info.get('rq')}
+            if c is not None:
+                entry['c2s'] = lines_of(c.sent)
+                entry['s2c'] = lines_of(c.peer.sent)
+                entry['server_closed'] = c.peer.closed_by_me
+            conns.append(entry)
+        result['conns'] = conns
+        result['decisions'] = self.dec.log
+        result['replicas'] = self.replicas
+        try:
+            result['file'] = self.outpath.read_text()
+        except OSError:
+            result['file'] = None
+        try:
+            self.outpath.unlink()
+        except OSError:
+            pass
+        result['at_stuck'] = self.at_stuck
+        result['clock'] = sched.clock
+        result['npoints'] = {t.name: t.npoints for t in sched.threads}
+        return result
+
+
+def run_session(cfg: Dict[str, Any]) -> Dict[str, Any]:
+    """cfg keys: boards [(deal, dealer, vul, id, dda|None)] (None: the server
+    deals 100 random boards), seed, policy (callable(rnd) -> baton.Policy),
+    styles (per seat dict), vary (bool), fault (dict|None), interrupt (point of
+    main | None), outdir, teams (ns, ew), requesters (admission scenarios),
+    max_blocks, second (cfg of a second table alive in the same process)."""
+    from bridge_env.network_bridge import client as cmod
+    from bridge_env import playing_phase as ppmod
+    rnd = _random.Random(cfg.get('seed', 0))
+    policy = cfg['policy'](_random.Random(rnd.randrange(1 << 30)))
+    inject = {}
+    if cfg.get('interrupt') is not None:
+        inject[('main', cfg['interrupt'])] = KeyboardInterrupt()
+    sched = baton.Sched(policy, max_blocks=cfg.get('max_blocks', 300000), inject=inject,
+                        record_blocks=cfg.get('record_blocks', True))
+    py_state = _random.getstate()
+    tables: List[_Table] = []
+    with baton.World(sched) as world:
+        # ---- capture the replicas the clients build (from outside) ----------
+        orig_obs = ppmod.ObservedPlayingPhase
+        orig_bp = cmod.Client.bidding_phase
+        orig_pp = cmod.Client.playing_phase
+
+        def bidding_phase(self_):
+            c = orig_bp(self_)
+            self_._verif_table.replicas.append(
+                {'seat': self_.player.value - 1, 'kind': 'contract',
+                 'board': self_.board_num, 'contract': project_contract(c)})
+            return c
+
+        class CapturingObserved(orig_obs):
+            def __init__(self_, contract, player, hand):
+                super().__init__(contract, player, hand)
+                CapturingObserved.last[id(hand)] = self_
+        CapturingObserved.last = {}
+
+        def playing_phase(self_, contract):
+            try:
+                return orig_pp(self_, contract)
+            finally:
+                ob = CapturingObserved.last.get(id(self_.hand_set))
+                if ob is not None:
+                    try:
+                        pr = project_replica(ob)
+                    except Exception as ex:  # noqa
+                        pr = {'error': repr(ex)}
+                    pr.update({'seat': self_.player.value - 1, 'kind': 'play',
+                               'board': self_.board_num})
+                    self_._verif_table.replicas.append(pr)
+        world._set(cmod.Client, 'bidding_phase', bidding_phase)
+        world._set(cmod.Client, 'playing_phase', playing_phase)
+        world._set(cmod, 'ObservedPlayingPhase', CapturingObserved)
+        tables.append(_Table(cfg, sched, world, 2000, ''))
+        if cfg.get('second') is not None:
+            c2 = dict(cfg['second'])
+            c2.setdefault('outdir', cfg['outdir'])
+            c2.setdefault('tag', cfg.get('tag', 0))
+            tables.append(_Table(c2, sched, world, 2001, 'B'))
+        for t in tables:
+            t.setup()
+
+        def observe():
+            for t in tables:
+                t.observe_stuck()
+        sched.on_stuck = observe
+        verdict = sched.run(timeout=cfg.get('timeout', 120.0))
     _random.setstate(py_state)
-    # ---- collect -----------------------------------------------------------
-    th = {t.name: t for t in sched.threads}
-    result['verdict'] = verdict
-    result['blocked'] = sched.blocked_at_end
-    result['nblocks'] = sched.nblocks
-    result['blocks'] = sched.blocks
-    result['main_exc'] = None if th['main'].exc is None else \
-        f'{type(th["main"].exc).__name__}: {th["main"].exc}'[:200]
-    result['main_done'] = th['main'].state == 'done'
-    result['seat_threads'] = [
-        {'name': t.name, 'done': t.state == 'done',
-         'exc': None if t.exc is None else f'{type(t.exc).__name__}: {t.exc}'[:200]}
-        for t in sched.threads if t.name.startswith('seat')]
-    conns = []
-    for info in client_info:
-        c = info.get('conn')
-        entry = {'idx': info['idx'], 'seat': info['seat'], 'kind': info['kind'],
-                 'wire': info['mangler'].wire if 'mangler' in info else [],
-                 'got': info.get('got'),
-                 'exc': info['exc'], 'c2s': [], 's2c': [], 'server_closed': False,
-                 'rq': info.get('rq')}
-        if c is not None:
-            entry['c2s'] = lines_of(c.sent)
-            entry['s2c'] = lines_of(c.peer.sent)
-            entry['server_closed'] = c.peer.closed_by_me
-        conns.append(entry)
-    result['conns'] = conns
-    result['decisions'] = dec.log
-    result['replicas'] = replicas
-    try:
-        result['file'] = outpath.read_text()
-    except OSError:
-        result['file'] = None
-    try:
-        outpath.unlink()
-    except OSError:
-        pass
-    result['at_stuck'] = at_stuck
-    result['clock'] = sched.clock
-    result['npoints'] = {t.name: t.npoints for t in sched.threads}
+    result = tables[0].collect(verdict)
+    if len(tables) > 1:
+        result['second'] = tables[1].collect(verdict)
     return result
